@@ -14,6 +14,7 @@ import numpy as np
 import common as C
 import fuzzylite as fl
 from props import c04
+from streams import midpoints as S_MID
 
 sys.set_int_max_str_digits(0)  # exact results of long sums have thousands of digits
 
@@ -34,6 +35,7 @@ RULE = ("5 integral defuzzifiers x resolution {1,2,3,5,10,100, random <= 100, in
         "is exact), all 7x9 implication/aggregation pairs, plateaus, equal maxima, symmetric sets, gaps. Family 'general': "
         "decimal/random parameters, also Gaussian/Bell/Sigmoid/Cosine/Spike/product terms, continuous norms only. Arc and "
         "SemiEllipse are left to C03 (F1/F2). A case is non-trivial when some result is finite; distinct = distinct input")
+RULE += (" Stream `midpoints` (fv/streams/midpoints.py): Op.midpoints at resolutions 1..5 (and 7, 16, 100) on reversed, empty, infinite and NaN ranges against Op.Integral.midpoints.")
 ASSUMPTIONS = ["the model evaluates the memberships at the float sample points the implementation computed (Op.midpoints is "
                "compared separately against the exact midpoints)",
                "numbers: 1e-9 abs+rel; tie-sensitive results (Bisector arg-min set, max-plateau): the implementation may "
@@ -227,6 +229,8 @@ def documented_set(case, row, x):
 # ------------------------------------------------------------------------------------------ property oracle
 
 def key(case):
+    if case.get("stream"):
+        return case["stream"]
     return (f"fam={case.get('fam')};r={case.get('r')};batch={batch_size(case) if is_batch(case) else 0};"
             f"terms={len(case.get('acts', []))};agg={case.get('agg')}")
 
@@ -237,6 +241,8 @@ def tol(case):
 
 def oracle(case):
     """direct predicate on the implementation: closed forms, range, order, NaN, batch, translation"""
+    if case.get("stream"):
+        return S_MID.oracle(case)      # Op.midpoints at small resolutions and unusual ranges
     lo, hi, r = float(case["lo"]), float(case["hi"]), int(case["r"])
     x = sample_points(case)
     if x.shape != (r,):
@@ -486,7 +492,8 @@ def corpus():
     out = []
     for p in sorted(glob.glob(os.path.join(C.VERIF, "corpus", PID, "*.json"))):
         d = json.load(open(p))
-        out.append(d.get("case", d))
+        if not d.get("case", d).get("stream"):
+            out.append(d.get("case", d))
     return out
 
 
@@ -666,6 +673,8 @@ def correspond(ctx):
                 if len(mism) > 12:
                     break
     st.count("oracle", n_or)
+    # Op.midpoints for r = 1..5 and unusual ranges (start > end, infinite / NaN bounds) against Op.Integral.midpoints
+    mism += S_MID.run(ctx)
     return mism
 
 
